@@ -68,7 +68,10 @@ PAOkErr == {"ok", "err"}
 PAAll == {"ok", "err", "errcl"}
 T1 == {1}
 T12 == {1, 2}
-LEnv == \E c \in LCalls : \/ \E op \in MCLOps, t \in MCToks : LCall(c, op, IF op \in SetOps THEN t ELSE 0)
+\* the setters are not called concurrently with each other (app/app.go calls each once, at start-up); concurrently with
+\* everything else they are
+SetterFree == \A d \in LCalls : ls[d].pc \notin {"set1", "set2"}
+LEnv == \E c \in LCalls : \/ \E op \in MCLOps, t \in MCToks : (op \in SetOps => SetterFree) /\ LCall(c, op, IF op \in SetOps THEN t ELSE 0)
                           \/ \E how \in MCProvAns : LProvAnswer(c, how)
                           \/ (MCCancel /\ ls[c].op \in ClientOps /\ LCancel(c))
 LNext == (LEnv \/ \E c \in LCalls : LInternal(c)) /\ LOnly
